@@ -1,5 +1,7 @@
 import Driver.C10
 import Driver.C01Wire
+import Driver.C11
+import BufModel.WorkspaceTargeting
 /-
   Line protocol for C01 (image = exact, closed, ordered compilation of the targets):
 
@@ -11,6 +13,15 @@ import Driver.C01Wire
     err/<class>
 
     wire <TAB> <desc> <TAB> <flags>        the serialised form of one image file, see Driver/C01Wire.lean
+
+    wst <TAB> <input> <TAB> <paths> <TAB> <excludes> <TAB> <module dirs> <TAB> <added modules> <TAB> <k>
+      one `buf build <input> --path … --exclude-path …` over a workspace on disk: input hex, the
+      three lists `_` | hex,hex…; the added modules (all local, in configuration order, one per
+      module dir) carry NO targeting of their own: BufModel.WorkspaceTargeting distributes the
+      values.  Answer as for `img`, plus err/user, err/notargets, err/sys.
+
+    iwop <TAB> …                           a path filter on a built image: Driver/C11.lean (C11's
+                                           model of imageWithOnlyPaths walks every dependency)
 -/
 namespace Driver.C01
 open BufModel.Path BufModel.Graph BufModel.Targeting Driver Driver.C10
@@ -41,20 +52,38 @@ def showFile (f : ImgFile) : String :=
     "+".intercalate (f.unusedIdx.map toString) ++ ":" ++
     (match f.modName with | some n => toString n | none => "_") ++ ":" ++ toString f.commit
 
+def imgAnswer (b : Built) (k : Nat) : String :=
+  match buildImage b.tws (compilerOf b) (permK k) with
+  -- which of "duplicate path" / "diagnostic" is reported for a path provided twice depends on
+  -- whether the compiler first meets it as a root or as an import (scheduling); both are
+  -- the one observable class "the workspace does not compile"
+  | .error .dupPath => "err/compile"
+  | .error e => "err/" ++ e.tag
+  | .ok fs => "ok/" ++ ",".intercalate (fs.map showFile)
+
+open BufModel.WorkspaceTargeting in
 def handle : List String → String
   | ["img", s, k] =>
     match parseWs s, k.toNat? with
-    | some xs, some k =>
-      let b := build xs
-      match buildImage b.tws (compilerOf b) (permK k) with
-      -- which of "duplicate path" / "diagnostic" is reported for a path provided twice depends on
-      -- whether the compiler first meets it as a root or as an import (scheduling); both are
-      -- the one observable class "the workspace does not compile"
-      | .error .dupPath => "err/compile"
-      | .error e => "err/" ++ e.tag
-      | .ok fs => "ok/" ++ ",".intercalate (fs.map showFile)
+    | some xs, some k => imgAnswer (build xs) k
     | _, _ => "bad-op"
+  | ["wst", input, ps, es, dirs, s, k] =>
+    match hexL input, (parseList ps ",").mapM hexL, (parseList es ",").mapM hexL, (parseList dirs ",").mapM hexL,
+        parseWs s, k.toNat? with
+    | some input, some ps, some es, some dirs, some xs, some k =>
+      match workspaceTargeting input ps es dirs with
+      | .error e => "err/" ++ e.tag
+      | .ok mts =>
+        match addAll mts with
+        | .error e => "err/" ++ e.tag
+        | .ok mts =>
+          let xs' := xs.zipIdx.map fun (x, i) =>
+            let mt := mts[i]?.getD {}
+            { x with a := { x.a with isTarget := mt.isTarget }, cfg := toCfg mt }
+          imgAnswer (build xs') k
+    | _, _, _, _, _, _ => "bad-op"
   | "wire" :: rest => Driver.C01Wire.handle rest
+  | "iwop" :: rest => Driver.C11.handle ("iwop" :: rest)
   | _ => "bad-op"
 
 def run : IO Unit := runLines handle
